@@ -138,12 +138,32 @@ class fixed_format_file(object):
         return [self.read_function[typ](line[i1:i2]) for
                 (i1, i2) , typ in self.line_spec[linetype]]
 
+    def fit_value(self, val, f):
+        """Formats a value with the format f, so that it fits in the
+        width of its field. If a float value is too wide (e.g. a
+        negative number or three-digit exponent in a field only just
+        wide enough for positive numbers with two-digit exponents), its
+        precision is reduced until it fits. Any other value that does
+        not fit raises a ValueError, rather than shifting the fields
+        after it out of their columns."""
+        valstr = ('%%%s' % f) % val
+        w = self.spec_width[f[0:-1]]
+        if len(valstr) > w and f[-1] in 'efg':
+            width, _, precision = f[0:-1].partition('.')
+            for p in range(int(precision or 6) - 1, -1, -1):
+                valstr = ('%%%s.%d%s' % (width, p, f[-1])) % val
+                if len(valstr) <= w: break
+        if len(valstr) > w:
+            raise ValueError("Value %s does not fit in field with format %s" %
+                             (repr(val), f))
+        return valstr
+
     def write_values_to_string(self, vals, linetype):
         """Inverse of parse_string()."""
         fmt = self.specification[linetype][1]
         strs = []
         for val , f in zip(vals , fmt):
-            if (val is not None) and (f[-1] != 'x'): valstr = ('%%%s'%f) % val
+            if (val is not None) and (f[-1] != 'x'): valstr = self.fit_value(val, f)
             else: valstr = ' ' * self.spec_width[f[0:-1]] # blank
             strs.append(valstr)
         return ''.join(strs)
